@@ -47,21 +47,23 @@ def run_two_models(case):
 
     out = []
     s = fam.two_model_structure(case)
-    refs = {1: refann.from_structure3d(fam.structure_of(case["m1"])), 2: refann.from_structure3d(fam.structure_of(dict(case["m2"], idmode=case["m1"].get("idmode", 0))))}
+    mn0 = tuple(case.get("model_numbers", (1, 2)))
+    refs = {mn0[0]: refann.from_structure3d(fam.structure_of(case["m1"])), mn0[1]: refann.from_structure3d(fam.structure_of(dict(case["m2"], idmode=case["m1"].get("idmode", 0))))}
     tot = [0, 0, 0]
     seen = []
-    for step, m in enumerate((1, 2, 1)):
+    mn = tuple(case.get("model_numbers", (1, 2)))
+    for step, m in enumerate((mn[0], mn[1], mn[0])):
         r = observe(find_stackings, s, m)
         if r[0] == "exc":
             out.append(viol("find_stackings:model:" + r[1], "find_stackings(structure, %d) raised %s" % (m, r[2])))
             continue
         got = [(st.nt1.auth.number, st.nt1.auth.icode, st.nt2.auth.number, st.nt2.auth.icode, st.topology.value if st.topology else None) for st in r[1]]
         seen.append(got)
-        res = ac.judge_stackings(refs[m], r[1], out, ":model%d-call%d" % (m, step + 1))
+        res = ac.judge_stackings(refs[m], r[1], out, ":model%d-call%d" % (1 if m == mn0[0] else 2, step + 1))
         for k in range(3):
             tot[k] += res[k]
     if len(seen) == 3 and seen[0] != seen[2]:
-        out.append(viol("stacking:model-answer-changes", "find_stackings(structure, 1) answers differently after model 2 was queried on the same object", seen[2], seen[0]))
+        out.append(viol("stacking:model-answer-changes", "find_stackings(structure, first model) answers differently after the second model was queried on the same object", seen[2], seen[0]))
     u = {}
     for v in out:
         u.setdefault(v["signature"].split(":model")[0] + (":other-model" if ":model" in v["signature"] else ""), v)
